@@ -298,7 +298,10 @@ def run_property(prop_id, tier, seed, replay=None, jobs=None, out=sys.stdout,
                      for shard in range(shards)]
             pending.append(('hyp', pool.map_async(_hyp_worker, tasks)))
         for name, nchunks, _ in sweeps:
-            tasks = [(prop_id, tier, name, k, known_sigs) for k in range(nchunks)]
+            # under python -O a slice of each enumeration is enough (only asserts differ)
+            chunks = range(nchunks) if not opt_pass or nchunks <= 100 and name.startswith(
+                ('size ladder', 'time ladder', 'join of')) else range(min(nchunks, 2))
+            tasks = [(prop_id, tier, name, k, known_sigs) for k in chunks]
             pending.append((name, pool.map_async(_sweep_worker, tasks, chunksize=1)))
         for name, async_res in pending:
             results = async_res.get()
